@@ -195,7 +195,7 @@ func dartTitle(s string) string {
 
 func checkC06(cfg *core.Config) int {
 	rep := core.NewReport(cfg)
-	n := cfg.Pick(32, 400)
+	n := cfg.Pick(32, 1500)
 	var all []*synth.Program
 	for i := 0; i < n; i++ {
 		r := core.Rand(cfg.Seed, "typeprog-c06", i)
@@ -481,11 +481,15 @@ func c06Layout(cfg *core.Config, rep *core.Report, progs []*synth.Program, inGoS
 					table = ext.ConstLists["_values"]
 				}
 				for i, c := range t.Consts {
+					// the member name only aligns positions (names are not on the wire): the full
+					// constant name or what follows its first underscore, lower-cased first
 					wantName := lowerFirstASCII(c.Name)
-					if _, after, found := strings.Cut(wantName, "_"); found && after != "" { // the member name only aligns positions; X_ keeps its name
-						wantName = lowerFirstASCII(after)
+					altName := wantName
+					if _, after, found := strings.Cut(wantName, "_"); found && after != "" {
+						altName = lowerFirstASCII(after)
 					}
-					if w.enum.Values[i] != wantName {
+					if w.enum.Values[i] != wantName && w.enum.Values[i] != altName {
+						wantName = wantName + " or " + altName
 						bad("dart-enum-values", "enum %s value %d is %q, want %q (constant %s)", dn, i, w.enum.Values[i], wantName, c.Name)
 						continue
 					}
